@@ -111,7 +111,7 @@ class RecProcess(Process):
     defaults = {'run_id': 0, 'ts': [1.0], 'ts_mode': 'invocation',
                 'cond': None, 'shared': ['sum'], 'emit': True,
                 'meta': False, 'salt': 0, 'port_order': None, 'record': True,
-                'twin': False}
+                'twin': False, 'setlast': False}
 
     def __init__(self, parameters=None):
         super().__init__(parameters)
@@ -137,6 +137,10 @@ class RecProcess(Process):
         if record:
             for v in shared_names:
                 shared[v]['_updater'] = recording_updater(rid, 'shared:' + v)
+        if self.parameters['setlast']:
+            # order-sensitive: every process sets it to its own salt, so the
+            # value shows whose update of an instant was applied last
+            shared['winner'] = {'_default': 0, '_emit': emit, '_updater': 'set'}
         schema = ({'shared': shared, 'own': own} if order == 'reversed'
                   else {'own': own, 'shared': shared})
         if self.parameters['twin']:
@@ -182,7 +186,8 @@ class RecProcess(Process):
         self.n_invocations += 1
         if self.parameters['meta']:
             # order-independent, state-dependent value
-            seen = sum(states['shared'].values())
+            seen = sum(v for k, v in states['shared'].items()
+                       if k != 'winner')
             token = (self.parameters['salt'] * 7 + self.n_invocations * 3
                      + seen) % 1009 + 1
         else:
@@ -199,6 +204,8 @@ class RecProcess(Process):
         }
         if self.parameters['meta']:
             update['own']['last'] = seen
+        if self.parameters['setlast']:
+            update['shared']['winner'] = self.parameters['salt']
         if self.parameters['twin']:
             update['ta'] = {'sub': {'t': token}}
             update['tb'] = {'sub': {'t': token}}
@@ -541,7 +548,12 @@ def resident_parts(res, run_id, parallel=False):
         flow['obs'] = []
         topology['obs'] = {'x': ('x',)}
     if res.get('deriver'):
-        steps['der'] = AgentStep({'name': 'der', 'run_id': run_id})
+        der = AgentStep({'name': 'der', 'run_id': run_id})
+        if res.get('legacy'):
+            # the legacy layout: a deriver listed under `processes`
+            processes['der'] = der
+        else:
+            steps['der'] = der
         topology['der'] = {'x': ('x',)}
     return processes, steps, flow, topology
 
